@@ -49,6 +49,9 @@ type Profile struct {
 	Managed                                                  bool // managed mode: caller-chosen timestamps
 	WDiscardTs, WMBatch                                      int
 	InMemory                                                 bool
+	CloseInflight                                            bool // Close starts while CommitWith callbacks are still pending
+	WFlatten                                                 int
+	NoHold                                                   bool // no items/iterators held across other ops (drops are documented as unsafe against concurrent reads)
 	WGC, WDrop                                               int
 	NoIter                                                   bool
 }
@@ -260,9 +263,11 @@ func genClient(t *rapid.T, p *Profile, cfg *Config, nkeys, maxOps int) []Op {
 			w int
 			k string
 		}
-		if tot := p.WDiscardTs + p.WMBatch + p.WGC + p.WDrop; tot > 0 && rapid.IntRange(0, 99).Draw(t, "extra2") < p.extra2Pct() {
+		if tot := p.WDiscardTs + p.WMBatch + p.WGC + p.WDrop + p.WFlatten; tot > 0 && rapid.IntRange(0, 99).Draw(t, "extra2") < p.extra2Pct() {
 			x := rapid.IntRange(0, tot-1).Draw(t, "extra2_kind")
 			switch {
+			case x >= p.WDiscardTs+p.WMBatch+p.WGC+p.WDrop:
+				ops = append(ops, Op{K: "flatten", N: rapid.IntRange(1, 3).Draw(t, "flatten_workers")})
 			case x < p.WDiscardTs:
 				ops = append(ops, Op{K: "discard_ts", Ts: uint64(rapid.IntRange(1, 30).Draw(t, "discard_ts"))})
 			case x < p.WDiscardTs+p.WMBatch:
@@ -347,7 +352,7 @@ func genClient(t *rapid.T, p *Profile, cfg *Config, nkeys, maxOps int) []Op {
 			continue
 		}
 		cs := []choice{{p.WGet, "get"}, {p.WIter, "iter"}}
-		if p.WGC > 0 {
+		if p.WGC > 0 && !p.NoHold {
 			cs = append(cs, choice{3, "get_hold"}, choice{2, "iter_hold"}, choice{4, "read_held"})
 		}
 		if slots[s] == 2 {
@@ -444,6 +449,30 @@ func GenCase(t *rapid.T, p *Profile) *Case {
 	}
 	if p.InMemory {
 		c.Cfg.InMemory = true
+	}
+	// Flatten concurrent with DropPrefix/DropAll crashes the process (known
+	// finding, probed from a recorded case): never generate both in one case.
+	hasDrop, hasFlatten := false, false
+	for _, cl := range c.Clients {
+		for _, op := range cl {
+			if op.K == "drop_prefix" || op.K == "drop_all" {
+				hasDrop = true
+			}
+			if op.K == "flatten" {
+				hasFlatten = true
+			}
+		}
+	}
+	if hasDrop && hasFlatten {
+		for ci, cl := range c.Clients {
+			var keep []Op
+			for _, op := range cl {
+				if op.K != "flatten" {
+					keep = append(keep, op)
+				}
+			}
+			c.Clients[ci] = keep
+		}
 	}
 	if p.Compaction || p.Clock {
 		c.Sched.ClockPct = rapid.SampledFrom([]int{2, 5, 15, 30}).Draw(t, "clock_pct")
